@@ -25,7 +25,7 @@ func (o *OracleC19) v(h int64, oracle, site, class, f string, a ...any) *Violati
 	return &Violation{Property: "C19", Oracle: oracle, Site: site, Class: class, Height: h, Msg: fmt.Sprintf(f, a...)}
 }
 
-var privileged = map[string]bool{"update_snapshot_limit": true, "mint_init": true, "update_cyclelist": true, "oracle_update_params": true, "reporter_update_params": true, "update_dataspec": true}
+var privileged = map[string]bool{"staking_update_params": true, "update_snapshot_limit": true, "mint_init": true, "update_cyclelist": true, "oracle_update_params": true, "reporter_update_params": true, "update_dataspec": true}
 
 // Holdings is what a third party must not be able to reduce or change.
 type Holdings struct {
@@ -107,7 +107,22 @@ func (o *OracleC19) AfterBlock(c *Chain, b *BlockCtx) []*Violation {
 			}
 		}
 	}
-	// governance-executed privileged messages are the only other way: nothing to check here beyond the above.
+	// whatever the spelling of the re-registration: a registered spec only ever changes through a governance update
+	nReg := 0
+	for i, tr := range b.Txs {
+		if in := c.IntentOfTx(b, i); in != nil && tr.Code == 0 && c.txHasKind(b, i, "register_spec") {
+			nReg++
+		}
+	}
+	for key, before := range o.prevSpecs {
+		if now, still := curSpecs[key]; (!still || now != before) && !specUpdatedByGov[key] {
+			cls := "registered-spec-changed"
+			if nReg > 0 {
+				cls = "spec-replaced-by-re-registration"
+			}
+			out = append(out, o.v(b.H, "registry", "SpecRegistry", cls, "data spec %q changed in block %d without a governance update (%d successful RegisterSpec in the block)", key, b.H, nReg))
+		}
+	}
 
 	// ---- counterfactual fork: effect of one transaction on everybody else
 	if b.Fork != nil {
@@ -185,8 +200,17 @@ func (o *OracleC19) forkCheck(c *Chain, b *BlockCtx, with *View) []*Violation {
 		}
 	}
 
+	// accounts that signed a transaction of their own in this block are not judged: removing the transaction under
+	// test can change the fate of their transaction (ante bounds, round state), and what they then pay or move is
+	// their own doing
+	ownTx := map[string]bool{}
+	for i := range b.Txs {
+		if in2 := c.IntentOfTx(b, i); in2 != nil && i != f.TxIdx {
+			ownTx[string(c.Accounts.Addr(in2.Actor))] = true
+		}
+	}
 	for _, a := range c.Accounts.Actors {
-		if string(a.Addr) == string(signer) {
+		if string(a.Addr) == string(signer) || ownTx[string(a.Addr)] {
 			continue
 		}
 		hw, ho := holdingsOf(with, a.Addr), holdingsOf(without, a.Addr)
